@@ -115,6 +115,10 @@ func (s *Sess) CreatePDR(req *ie.IE) error {
 			if err1 != nil {
 				break
 			}
+			if _, dup := urrids[v]; dup {
+				// a repeated URR ID: the PDR refers to that URR once
+				break
+			}
 			urrids[v] = struct{}{}
 			urrInfo, ok := s.URRIDs[v]
 			if ok {
